@@ -1133,9 +1133,14 @@ fn scan_chars(s: &str, c: char) -> isize {
 
 fn read_timebase(cur: &mut SourceCursor, song: &mut Song) -> Token {
     let v = read_arg_value(cur, song);
+    let old_timebase = song.timebase;
     song.timebase = v.to_i();
     if song.timebase <= 48 {
         song.timebase = 48;
+    }
+    // a track that still has the default length (a quarter note of the old time base) keeps a quarter note
+    for t in song.tracks.iter_mut() {
+        if t.length == old_timebase { t.length = song.timebase; }
     }
     Token::new_empty(&format!("TIMEBASE={}", v.to_i()), cur.line)
 }
